@@ -239,7 +239,7 @@ def _run(h):
     from pgpy.types import Header as _BH, MetaDispatchable as _MD
     from pgpy.packet.types import Header as _H, Packet as _P, VersionedHeader as _VH, Opaque as _O
     _objs = {'types.Header.length_bin': _BH.length_bin, 'packet.Header.parse': _H.parse, 'VersionedHeader.parse': _VH.parse, 'MetaDispatchable.__call__': _MD.__call__, 'Packet.update_hlen': _P.update_hlen, 'Opaque.parse': _O.parse}
-    _S.check_pins(ctx, [(k, _objs[k], v) for k, v in {'types.Header.length_bin': '377b05380a964da6', 'packet.Header.parse': '24ff130f0ca424d2', 'VersionedHeader.parse': '35ab70161e2827e2', 'MetaDispatchable.__call__': '1ad487f8b93733b6', 'Packet.update_hlen': 'd3e11a2c7e5557c4', 'Opaque.parse': 'ca6a82edaf78bc9b'}.items()])
+    _S.check_pins(ctx, [(k, _objs[k], v) for k, v in {'types.Header.length_bin': '377b05380a964da6', 'packet.Header.parse': '06d846c3c0c27e8f', 'VersionedHeader.parse': '35ab70161e2827e2', 'MetaDispatchable.__call__': '1ad487f8b93733b6', 'Packet.update_hlen': 'd3e11a2c7e5557c4', 'Opaque.parse': 'ca6a82edaf78bc9b'}.items()])
     rng = ctx.rng
     seen = set()
     # ---- 1. everything PGPy emits, packet by packet ----
@@ -339,7 +339,7 @@ def _run(h):
     usage255_after_unlock(h)
     foreign_signatures(h)
     unknown_versions(h)
-    # foreign_bodies(h)   # enabled once the repairs it found are in
+    foreign_bodies(h)
 
 
 def _split_subpackets(area):
@@ -513,6 +513,9 @@ def foreign_bodies(h):
                 pass
             return before == raw, bytes(p.__bytearray__()) == raw
         o = outcome(flow)
+        if o[0] != 'ok':
+            ctx.dist['foreign-bodies-refused'] = ctx.dist.get('foreign-bodies-refused', 0) + 1      # not accepted at all (malformed image subpacket)
+            continue
         if o != ('ok', (True, True)):
             ctx.fail('foreign-bodies', 'reading PGPUID.image changes what a user attribute without image exports', {'op': 'foreign-body', 'what': 'image getter', 'pkt': raw.hex(), 'impl': repr(o)})
 
